@@ -24,6 +24,11 @@ def date_from_number(value, pos=None):
         )
 
 
+# off while a stack trace line is written: the _str_ hooks of a program could
+# recurse, and fail, all over again at every level that is being left
+render_hooks = True
+
+
 class Args:
     def __init__(self, pos):
         self.argNames = []
@@ -51,18 +56,24 @@ class Args:
         )
 
     def toStringAbbrev(self):
-        result = []
-        for name, value in self.args.items():
-            try:
-                value = str(value)
-            except Exception:
-                # a value that cannot be rendered must not replace the
-                # error whose stack trace is being written
-                value = "<" + value.type() + ">"
-            if len(value) > 50:
-                value = value[0:50] + "... " + value[len(value) - 5:]
-            result.append(name + "=" + value)
-        return ", ".join(result)
+        global render_hooks
+        saved = render_hooks
+        render_hooks = False
+        try:
+            result = []
+            for name, value in self.args.items():
+                try:
+                    value = str(value)
+                except Exception:
+                    # a value that cannot be rendered must not replace the
+                    # error whose stack trace is being written
+                    value = "<" + value.type() + ">"
+                if len(value) > 50:
+                    value = value[0:50] + "... " + value[len(value) - 5:]
+                result.append(name + "=" + value)
+            return ", ".join(result)
+        finally:
+            render_hooks = saved
 
     def setArgs(self, names, values):
         rest = ValueList()
@@ -1346,7 +1357,7 @@ class ValueObject(Value):
         return str(self) < str(other)
 
     def __repr__(self):
-        fn = self.resolveItem("_str_")
+        fn = self.resolveItem("_str_") if render_hooks else None
         if fn is not None and fn.isFunc():
             args_ = Args(None)
             args_.addArgs(fn.getArgNames())
